@@ -28,6 +28,7 @@ type lab struct {
 	v6      bool
 	cleaned bool
 	pub     map[int]bool // links numbered from public (non-RFC1918 / non-ULA) blocks; default: every link private
+	bin     string       // CLI binary name in VERIF_BUILD_DIR (default datadog-traceroute)
 }
 
 // labArgs: a check that itself runs inside the private namespace pair (everything except C13) reaches the lab through
@@ -211,7 +212,11 @@ func (l *lab) cli(args ...string) c13Out { return l.cliIn(0, args...) }
 
 // cliIn runs the CLI inside node k of the chain (0 = source host, n+1 = destination host).
 func (l *lab) cliIn(k int, args ...string) c13Out {
-	bin := filepath.Join(os.Getenv("VERIF_BUILD_DIR"), "datadog-traceroute")
+	name := l.bin
+	if name == "" {
+		name = "datadog-traceroute"
+	}
+	bin := filepath.Join(os.Getenv("VERIF_BUILD_DIR"), name)
 	ctx, cancel := context.WithTimeout(context.Background(), 120*time.Second)
 	defer cancel()
 	la := labArgs(append([]string{"ip", "netns", "exec", l.ns[k], bin}, args...))
